@@ -1,9 +1,44 @@
 import QecVerif.Model.DriverLattice
+import QecVerif.Model.Lattice.RotatedPlanar
 namespace Qec.Drv
 open Qec Qec.Wire
 
-/-- driver ops of the rotatedplanar family (filled in by the family's model) -/
+/-- driver ops of the rotatedplanar family; `r c` = rows columns, indices are `x,y` -/
 def rotatedplanar : List String → Option String
+  | ["ctor", r, c] => do
+      let r ← parsePyVal? r; let c ← parsePyVal? c; pure (showCtor (RotatedPlanar.ctor r c))
+  | ["nkd", r, c] => do
+      let r ← parseInt? r; let c ← parseInt? c
+      let (n, k, d) := RotatedPlanar.nkd r c; pure s!"{n} {k} {d}"
+  | ["stabs", r, c] => do
+      let r ← parseInt? r; let c ← parseInt? c; pure (showMat (RotatedPlanar.stabilizers r c))
+  | ["lx", r, c] => do let r ← parseInt? r; let c ← parseInt? c; pure (showBits (RotatedPlanar.logicalX r c))
+  | ["lz", r, c] => do let r ← parseInt? r; let c ← parseInt? c; pure (showBits (RotatedPlanar.logicalZ r c))
+  | ["plaqidx", r, c] => do
+      let r ← parseInt? r; let c ← parseInt? c; pure (showIdxList (RotatedPlanar.plaquetteIndices r c))
+  | ["bounds", r, c] => do
+      let r ← parseInt? r; let c ← parseInt? c
+      pure (showIdx (RotatedPlanar.maxSiteX c, RotatedPlanar.maxSiteY r))
+  | ["flat", r, c, i] => do
+      let r ← parseInt? r; let c ← parseInt? c; let i ← parseIdx? i
+      pure (if RotatedPlanar.inSiteBounds r c i.1 i.2 then toString (RotatedPlanar.flatten r c i.1 i.2)
+            else "AssertionError")
+  | ["kinds", i] => do
+      let i ← parseIdx? i
+      pure s!"{showBool (RotatedPlanar.isXPlaquette i.1 i.2)}{showBool (RotatedPlanar.isZPlaquette i.1 i.2)}"
+  | ["inb", r, c, i] => do
+      let r ← parseInt? r; let c ← parseInt? c; let i ← parseIdx? i
+      pure s!"{showBool (RotatedPlanar.inSiteBounds r c i.1 i.2)}{showBool (RotatedPlanar.inPlaquetteBounds r c i.1 i.2)}{showBool (RotatedPlanar.isVirtualPlaquette r c i.1 i.2)}"
+  | ["site", r, c, op, i] => do
+      let r ← parseInt? r; let c ← parseInt? c; let i ← parseIdx? i
+      let op ← (match op.toList with | [ch] => P1.ofChar? ch | _ => none)
+      pure (showBits (RotatedPlanar.site r c op (RotatedPlanar.identity r c) i))
+  | ["plaq", r, c, i] => do
+      let r ← parseInt? r; let c ← parseInt? c; let i ← parseIdx? i
+      pure (showBits (RotatedPlanar.plaquette r c (RotatedPlanar.identity r c) i.1 i.2))
+  | ["s2p", r, c, s] => do
+      let r ← parseInt? r; let c ← parseInt? c; let s ← parseBits? s
+      pure (showIdxList (RotatedPlanar.syndromeToPlaquettes r c s))
   | _ => none
 
 end Qec.Drv
